@@ -371,7 +371,14 @@ func (p *Parser) parseOperation(tokens []tokenizer.Token, validateOnly bool) (se
 	}
 	if negated && err == nil {
 		if !validateOnly {
-			sel = &NotNode{sel}
+			if inner, ok := sel.(*NotNode); ok {
+				// Negation of a parenthesised negation, e.g. "!(!has(a))": collapse the double
+				// negation, as is done for adjacent "!!" above.  Otherwise the canonical form
+				// "!!has(a)" would parse back to a different selector ("has(a)").
+				sel = inner.Operand
+			} else {
+				sel = &NotNode{sel}
+			}
 		}
 	}
 	return
